@@ -25,6 +25,8 @@ struct Case {
     xseed: u32,
     /// 0-1 ordinary weights, 2 small weights (contracting range), 3 zero weights in the range (constant outputs)
     wclass: u8,
+    /// accumulation configured for *skip* connections (none exist here; it must not influence loops)
+    skipacc: Acc,
 }
 
 /// A range of layers whose output shape equals `dims` (the input shape of its first layer).
@@ -107,14 +109,14 @@ fn decode(tape: &[u32]) -> Case {
     // k is mostly 1..3; one case in five loops 4..24 times (long loops settle to a fixed point)
     let k = if t.chance(1, 5) { t.usize(4, 24) } else { t.usize(1, 3) };
     let wclass = t.pick(4) as u8;
-    Case { spec: NetSpec { input, layers }, a, b, k, acc: ACCS[t.pick(5)], inskips: t.bool(), wseed: t.raw(), xseed: t.raw(), wclass }
+    Case { spec: NetSpec { input, layers }, a, b, k, acc: ACCS[t.pick(5)], inskips: t.bool(), wseed: t.raw(), xseed: t.raw(), wclass, skipacc: ACCS[t.pick(5)] }
 }
 
 fn build_loop(case: &Case) -> Result<Network, String> {
     let mut net = build(&case.spec)?;
-    let (a, b, k, ins, acc) = (case.a, case.b, case.k, case.inskips, case.acc);
+    let (a, b, k, ins, acc, sacc) = (case.a, case.b, case.k, case.inskips, case.acc, case.skipacc);
     catch(std::panic::AssertUnwindSafe(|| {
-        net.set_accumulation(Acc::Add.lib(), acc.lib());
+        net.set_accumulation(sacc.lib(), acc.lib());
         net.loopback(b, a, k, Arc::new(|x| 1.0 / x), ins);
     }))?;
     Ok(net)
@@ -254,7 +256,7 @@ impl Prop for C17 {
         t.pick(400_000, 30_000_000)
     }
     fn rule(&self) -> String {
-        "tape-decoded network = optional prefix layer + looped range a..b whose output shape equals the input shape of a (1-3 dense layers; 1-2 shape-preserving convolutions / deconvolutions; 1x1-kernel padding-1 convolution + 3x3 pool; 2x2 deconvolution + 2x2 pool) + optional suffix (a dense layer, which makes the range output flattened, or another fitting layer); k = 1..3 (one case in five: 4..24), ordinary / small / zero weights in the range, five accumulations, input skips on/off; distinct weights, random inputs. Oracle: o0 = R(x_a), oi = R(o(i-1) [+ x_a]), value passed on = acc(o0; o1..ok), composed from the library's own single-layer forwards (accumulations computed by the harness) (<= 2 ulp, bit-identical today); for overwrite without input skips additionally the plain network with a..b repeated k+1 times and the same weights. Non-trivial: a < b or a spatial range. Distinct = (architecture, a, b, k, accumulation, input skips).".into()
+        "tape-decoded network = optional prefix layer + looped range a..b whose output shape equals the input shape of a (1-3 dense layers; 1-2 shape-preserving convolutions / deconvolutions; 1x1-kernel padding-1 convolution + 3x3 pool; 2x2 deconvolution + 2x2 pool) + optional suffix (a dense layer, which makes the range output flattened, or another fitting layer); k = 1..3 (one case in five: 4..24), ordinary / small / zero weights in the range, five accumulations, input skips on/off, any accumulation configured for (absent) skip connections; distinct weights, random inputs. Oracle: o0 = R(x_a), oi = R(o(i-1) [+ x_a]), value passed on = acc(o0; o1..ok), composed from the library's own single-layer forwards (accumulations computed by the harness) (<= 2 ulp, bit-identical today); for overwrite without input skips additionally the plain network with a..b repeated k+1 times and the same weights. Non-trivial: a < b or a spatial range. Distinct = (architecture, a, b, k, accumulation, input skips).".into()
     }
     fn run_case(&self, tape: &[u32], ev: &mut CaseEv) -> CheckResult {
         check(&decode(tape), ev)
